@@ -23,14 +23,14 @@ const INT_LEN_T: u64 = 32;
 /// /INT is asserted for 32 T every 69888 T, even ports read 0xBF (ULA, no key pressed) and
 /// port xx1F reads 0x00 (idle Kempston joystick) and every other odd port reads 0xFF.
 struct Machine {
-    mem: Vec<u8>,
+    mem: Box<[u8; 0x10000]>,
     spectrum: bool,
     t: u64,
 }
 
 impl Machine {
     fn new(spectrum: bool) -> Self {
-        Machine { mem: vec![0; 0x10000], spectrum, t: 0 }
+        Machine { mem: vec![0u8; 0x10000].into_boxed_slice().try_into().unwrap(), spectrum, t: 0 }
     }
     fn load(&mut self, addr: u16, data: &[u8]) {
         for (i, b) in data.iter().enumerate() {
@@ -151,27 +151,52 @@ fn run_zexall_group(image: &[u8], group: usize) -> Result<String, String> {
     Ok(out)
 }
 
-fn run_zexall() -> Result<String, String> {
-    let image = std::fs::read(ZEXALL).map_err(|e| format!("{ZEXALL}: {e}"))?;
-    let handles: Vec<_> = (0..ZEXALL_GROUPS.len())
-        .map(|g| {
-            let image = image.clone();
-            std::thread::spawn(move || run_zexall_group(&image, g))
+fn run_zexall(verbose: bool) -> Result<String, String> {
+    use std::sync::atomic::{AtomicUsize, Ordering};
+    use std::sync::{Arc, Mutex};
+    let image = Arc::new(std::fs::read(ZEXALL).map_err(|e| format!("{ZEXALL}: {e}"))?);
+    // Work queue, heaviest groups first (the aluop groups are ~40 % of zexall's 46.7 G T-states),
+    // so that the longest group does not end up running alone at the end.
+    let heavy = ["alu8r", "alu8rx", "alu8x", "alu8i", "bitz80", "rotz80", "rotxy", "srz80", "srzx", "bitx"];
+    let mut order: Vec<usize> = (0..ZEXALL_GROUPS.len()).collect();
+    order.sort_by_key(|g| heavy.iter().position(|h| *h == ZEXALL_GROUPS[*g]).unwrap_or(heavy.len()));
+    let order = Arc::new(order);
+    let next = Arc::new(AtomicUsize::new(0));
+    let results: Arc<Mutex<Vec<Option<(Result<String, String>, f64)>>>> =
+        Arc::new(Mutex::new(vec![None; ZEXALL_GROUPS.len()]));
+    let workers = std::thread::available_parallelism().map(|n| n.get()).unwrap_or(4).clamp(1, ZEXALL_GROUPS.len());
+    let handles: Vec<_> = (0..workers)
+        .map(|_| {
+            let (image, order, next, results) = (image.clone(), order.clone(), next.clone(), results.clone());
+            std::thread::spawn(move || loop {
+                let i = next.fetch_add(1, Ordering::SeqCst);
+                let Some(&g) = order.get(i) else { break };
+                let t = Instant::now();
+                let r = run_zexall_group(&image, g);
+                results.lock().unwrap()[g] = Some((r, t.elapsed().as_secs_f64()));
+            })
         })
         .collect();
+    let mut panicked = false;
+    for h in handles {
+        panicked |= h.join().is_err();
+    }
+    let results = results.lock().unwrap();
     let mut failed = Vec::new();
-    for (g, h) in handles.into_iter().enumerate() {
-        let name = ZEXALL_GROUPS[g];
-        match h.join() {
-            Ok(Ok(out)) => {
+    for (g, name) in ZEXALL_GROUPS.iter().enumerate() {
+        match &results[g] {
+            Some((Ok(out), secs)) => {
                 // every group prints "<description>....  OK\n\r" on success
                 let clean = out.replace(['\n', '\r'], " ");
+                if verbose {
+                    eprintln!("zexall {name:8} {secs:5.1} s  {}", clean.trim());
+                }
                 if !out.trim_end().ends_with("  OK") || out.contains("ERROR") {
                     failed.push(format!("{name}: {}", clean.trim()));
                 }
             }
-            Ok(Err(e)) => failed.push(format!("{name}: {e}")),
-            Err(_) => failed.push(format!("{name}: thread panicked")),
+            Some((Err(e), _)) => failed.push(format!("{name}: {e}")),
+            None => failed.push(format!("{name}: not run{}", if panicked { " (worker panicked)" } else { "" })),
         }
     }
     if failed.is_empty() {
@@ -289,7 +314,7 @@ fn find(mem: &[u8], pat: &[u8], from: usize, to: usize) -> Option<usize> {
 fn run_z80test(name: &str, verbose: bool) -> Result<String, String> {
     let (mut cpu, mut m) = boot_spectrum()?;
     enter_usr(&mut cpu, &mut m, name)?;
-    let text = find(&m.mem, b"all tests passed", 0x8000, 0x8400)
+    let text = find(&m.mem[..], b"all tests passed", 0x8000, 0x8400)
         .ok_or_else(|| format!("{name}: success message not found"))?;
     let pass_addr = (text - 3) as u16;
     if m.mem[pass_addr as usize] != 0xCD {
@@ -338,7 +363,7 @@ fn run_z80test(name: &str, verbose: bool) -> Result<String, String> {
 fn run_bltst(screen_path: Option<&str>) -> Result<String, String> {
     let (mut cpu, mut m) = boot_spectrum()?;
     enter_usr(&mut cpu, &mut m, "z80bltst")?;
-    let exit = find(&m.mem, &[0xF3, 0x31, 0x00, 0x00], 0x8000, 0x8400)
+    let exit = find(&m.mem[..], &[0xF3, 0x31, 0x00, 0x00], 0x8000, 0x8400)
         .ok_or_else(|| "z80bltst: exit pattern not found".to_string())? as u16;
     let t0 = m.t;
     let budget = t0 + 20_000_000_000;
@@ -406,7 +431,7 @@ fn main() {
             std::thread::spawn(move || {
                 let t = Instant::now();
                 let res = match name.as_str() {
-                    "zexall" => run_zexall(),
+                    "zexall" => run_zexall(verbose),
                     "z80bltst" => run_bltst(screen_path.as_deref()),
                     n => run_z80test(n, verbose),
                 };
